@@ -34,8 +34,9 @@ CHECKS["C01"] = ("bfs", "model_checking",
     "explicit-state BFS over renderer histories of the real TerminalRenderer against a VT screen model, differential vs from-scratch repaint",
     "A state is the real renderer (back buffer, marks, glyph cache read through hook H3) together with a reference VT screen that executed every "
     "command the renderer issued. Transitions: draw any surface of the grid and call frame; draw-and-reset without a frame; clear(); clear()+new(clear=true); "
-    "a frame whose commands are lost followed by clear(). For each of 6 (8) grids up to 2x3 / 1x7 the search runs over ALL surfaces built from up to 11 cell kinds "
-    "(narrow, wide, coloured, underlined blanks, three images incl. equal content in a different allocation, a glyph) and continues to a fixpoint of the state graph; "
+    "a frame whose commands are lost followed by clear(). For each of 7 (10) grids up to 2x3 / 1x7 the search runs over ALL surfaces built from up to 11 of 14 cell kinds "
+    "(narrow, wide, coloured, underlined blanks, four images incl. equal content in a different allocation and a two-row one, two glyphs, one of them under two faces; "
+    "a glyph must show as the image its own rasterisation gives for that face and cell size) and continues to a fixpoint of the state graph; "
     "after every frame the screen must equal what a fresh renderer paints on a blank screen, the from-scratch screen must equal the direct reading of the surface when nothing overlaps, "
     "and no command may address a cell outside the grid or print in the pending-wrap column.",
     "Trusts the VT semantics of model/screen.rs (ECH = background only, wide-character halves) and unicode-width; image z-order is not modelled; grids beyond the listed sizes are not explored.",
